@@ -784,6 +784,9 @@ def main():
             continue
         sev = job.get("solved", 1)
         ev = run_case(c, mode, bool(sev) and i % sev == 0, bool(fresh_every) and i % fresh_every == 0)
+        if mode == "z3ref" and c["op"] == "toieee" and ev["zs"] == 0:
+            skipped += 1          # fp.to_ieee_bv of a NaN produced by an inner operation: uninterpreted in Z3 as well
+            continue
         ev["gi"] = i
         cnt["n_" + c["op"]] = cnt.get("n_" + c["op"], 0) + 1
         if ev["sv"]:
